@@ -443,6 +443,7 @@ class StmtMixin:
         for n in names:
             if n in st.env and isinstance(st.env[n], Val):
                 st.env[n] = fresh(st.env[n].sort, n)
+                self.assume_wf(st, st.env[n])
         for loc in self.heap_mods(body):
             if loc in st.heap:
                 self.havoc_loc(st, loc)
